@@ -111,6 +111,7 @@ PROPS["C09"]["assumptions"] = PROPS["C09"]["assumptions"] + [
     "lexical side (Props/C09d.v): for EVERY input the lexical parser model's result depends on the whitespace-free text only (idealize_env s = idealize_env s' -> lex_parse s = lex_parse s'; inserting any White_Space code points anywhere changes nothing), proved via fuel independence of the term layer; hypothesis: non-empty opening brackets (true of the shipped tables by computation)",
 ]
 PROPS["C01"]["props"] = PROPS["C01"]["props"] + ["Props/C01d.v"]
+PROPS["C01"]["props"] = PROPS["C01"]["props"] + ["Props/C01e.v"]   # Han, unconditional on keyword-free names (with C09 / C15 corollaries)
 PROPS["C09"]["props"] = PROPS["C09"]["props"] + ["Props/C09e.v"]
 PROPS["C15"]["props"] = PROPS["C15"]["props"] + ["Props/C15d.v"]
 PROPS["C15"]["run"] = ["Run/EnumRun.v", "Run/LexRun.v"]
@@ -204,7 +205,9 @@ PROPS["C11"] = {
 PROPS["C05"]["also"] = ["C05F"]      # lexical parser half + fold half
 PROPS["C12"]["also"] = ["C05F"]      # C12_fold_wf lives in Props/C05F.v
 PROPS["C14"]["also"] = ["C05F"]      # C14_fold_category lives in Props/C05F.v
-PROPS["C10"]["also"] = ["C03"]       # C10_fold_* (desugaring at the fold level) live in Props/C03.v
+# C10_fold_* (desugaring at the fold level) live in Props/C03.v: that file and C03's stream only
+PROPS["C10F"] = dict(PROPS["C03"], props=["Props/C03.v"], stream="C03")
+PROPS["C10"]["also"] = ["C10F"]
 
 PROPS["C16"] = {
     "props": ["Props/C16.v"],
@@ -224,3 +227,12 @@ PROPS["C16"] = {
 PROPS["C11"]["mismatch_is_failure"] = "the README grammar (evaluated by the model interpreter) and the library disagree on kind or tree of this ASCII text"
 PROPS["C08"]["tables"] = ["T1", "T2", "T3", "T4", "T5"]
 PROPS["C03"]["props"] = PROPS["C03"]["props"] + ["Props/C03d.v"]   # value-level agreement, Henum discharged by C01d
+PROPS["C02"]["props"] = PROPS["C02"]["props"] + ["Props/C02e.v"]   # Han, unconditional on keyword-free names (unamb_top / top_clean discharged)
+PROPS["C02"]["assumptions"] = PROPS["C02"]["assumptions"] + [
+    "Han (Props/C02e.v): lex_parse (lex_fmt x) = LOk x for every value of the vocabulary -- and of the extended domain lvalue_ok with prefix-only atoms -- all of whose atom names are KEYWORD-FREE (no character of a name occurs in any keyword of the lexical format: 56 characters for Han; decidable, local to a name), bare atoms included; the K5 witness lies outside this subdomain; outside it Han stays under the explicit conditions of Props/C02.v",
+]
+PROPS["C03"]["props"] = PROPS["C03"]["props"] + ["Props/C03e.v"]   # Han on keyword-free names: term and value level, both pipelines (with C09 corollaries)
+PROPS["C03"]["assumptions"] = PROPS["C03"]["assumptions"] + [
+    "Han (Props/C03e.v), on the subdomain of KEYWORD-FREE names (as Props/C01e.v): TERM level -- every surface tree with well-formed keyword-free atoms, any spacing, derived copulas: both pipelines return its meaning (the two unamb hypotheses of C03b discharged); VALUE level -- for every well-formed value the enum and the lexical formatter's texts have the same whitespace-free form (no name condition), and with keyword-free names the lexical parser reads the enum formatter's text (and every text with that whitespace-free form) as lex_of_narsese v, fold returns v, the enum parser returns v (C01e): both pipelines agree; also with the term written as any surface tree. Oracle hypotheses only (f64 Display/FromStr contract). The K3 space-disagreement example lies outside the subdomain; outside it Han stays under the explicit conditions of Props/C03b.v, nothing at the value level",
+]
+PROPS["C09"]["props"] = PROPS["C09"]["props"] + ["Props/C03e.v"]   # C09_han_* corollaries live there
